@@ -776,19 +776,19 @@ theorem cond_ok (sc : Bool) (c l r : Operand) (hc : c.constval = none) (ol : Ope
   by_cases ha : arithOk sc l r t = true
   · obtain ⟨x, h1, h2⟩ := binop_arith sc .add l r ol or' t ha
     have hs := arithOk_shapes ha
-    simp [condType, hs.1, hs.2, h1, hc, okOptT, condOk, h2]
+    simp [condType, condRes, hs.1, hs.2, h1, hc, okOptT, condOk, h2]
   · simp only [condOk, ha, Bool.false_or] at h
     have hna : ∀ t', l.ty.isArith = false ∨ r.ty.isArith = false → arithOk sc l r t' = false :=
       fun t' hh => arithOk_false_of_ptr hh
     cases hl : l.ty <;> cases hr : r.ty <;>
       simp [hl, hr, Ty.isStructUnion, Ty.isPtr] at h <;>
-      (try (simp [condType, hl, hr, hc, Ty.isArith, Ty.isPtr, okOptT, condOk, Ty.isStructUnion, h]; done))
+      (try (simp [condType, condRes, hl, hr, hc, Ty.isArith, Ty.isPtr, okOptT, condOk, Ty.isStructUnion, h]; done))
     rename_i ql lb qr rb
     have hA : ∀ t', arithOk sc l r t' = false := fun t' => hna t' (Or.inl (by simp [hl, Ty.isArith]))
     have hrefl : compatible lb lb = true := by rw [spec_compatible_eq]; exact compat_refl' lb
     by_cases heq : ql = qr ∧ lb = rb
     · obtain ⟨rfl, rfl⟩ := heq
-      simp [condType, hl, hr, hc, Ty.isArith, Ty.isPtr, okOptT]
+      simp [condType, condRes, hl, hr, hc, Ty.isArith, Ty.isPtr, okOptT]
       cases hn1 : l.nullconst <;> cases hn2 : r.nullconst <;>
         simp [condOk, hl, hr, hn1, hn2, hA, Ty.isStructUnion, Ty.isPtr, Qual.union_self, composite, hrefl]
       simp [hn1, hn2] at h
@@ -797,7 +797,7 @@ theorem cond_ok (sc : Bool) (c l r : Operand) (hc : c.constval = none) (ol : Ope
       · simp [hv]
     · cases hn1 : l.nullconst <;> cases hn2 : r.nullconst <;>
         simp [hn1, hn2] at h <;>
-        simp [condType, hl, hr, hc, Ty.isArith, Ty.isPtr, okOptT, heq, hn1, hn2] <;>
+        simp [condType, condRes, hl, hr, hc, Ty.isArith, Ty.isPtr, okOptT, heq, hn1, hn2] <;>
         (try (simp [condOk, hl, hr, hn1, hn2, hA, Ty.isStructUnion, Ty.isPtr]; done))
       rcases h with ⟨⟨⟨hv1, hv2⟩, hcmp⟩, _⟩ | ⟨⟨⟨hv, hf1⟩, hf2⟩, _⟩
       · have hcmp' : typecompatible lb rb = true := by rw [← spec_compatible_eq]; exact hcmp
@@ -814,11 +814,11 @@ theorem cond_const_arith (sc : Bool) (c l r : Operand) (ol : OperandOk l) (or' :
   rename_i a b
   obtain ⟨x, hx, _⟩ := commonreal_some sc l r a b hl hr ol or'
   cases hc : c.constval with
-  | none => simp [condType, hc]
+  | none => simp [condType, condRes, hc]
   | some v =>
     have e1 := exprconvert_ty_arith l a x hl
     have e2 := exprconvert_ty_arith r b x hr
-    cases v <;> simp [condType, hl, hr, Ty.isArith, hx, hc, exprconvert_ty_arith _ x x e1, exprconvert_ty_arith _ x x e2]
+    cases v <;> simp [condType, condRes, hl, hr, Ty.isArith, hx, hc, exprconvert_ty_arith _ x x e1, exprconvert_ty_arith _ x x e2]
 
 /-! ### uniqueness of the operator result type -/
 
